@@ -20,6 +20,7 @@ import (
 	"crypto/sha256"
 	"encoding/hex"
 	"encoding/json"
+	"errors"
 	"fmt"
 	"math/rand"
 	"os"
@@ -257,6 +258,8 @@ type concOp struct {
 	arg  int64
 }
 
+var errConcStop = errors.New("stop")
+
 const concKinds = 11
 
 type concRun struct {
@@ -459,13 +462,25 @@ func (cr *concRun) runOp(g int, op concOp) (res string) {
 		}
 		var sb strings.Builder
 		cnt := 0
+		// some reads are stopped early by the callback: it closes the bank it was given (it owns it) and returns an error
+		stopAt := -1
+		if v%7 == 0 {
+			stopAt = int(v>>4) % n
+		}
 		err = avro.ReadFile(bytes.NewReader(buf.Bytes()), cA{}, func(val unsafe.Pointer, rb *avro.ResourceBank) error {
 			sb.WriteString(js(*(*cA)(val)))
 			cnt++
 			rb.Close()
+			if cnt-1 == stopAt {
+				return errConcStop
+			}
 			return nil
 		})
-		if err != nil {
+		if stopAt >= 0 {
+			if !errors.Is(err, errConcStop) {
+				return "err:callback error not returned: " + fmt.Sprint(err)
+			}
+		} else if err != nil {
 			return "err:" + err.Error()
 		}
 		return fmt.Sprintf("%d:%s", cnt, short(sb.String()))
